@@ -40,6 +40,9 @@ func genC09base(t *rapid.T, tier string) HistCase {
 
 func validateVersion(w *core.World, sr *core.SavedRoot) (*ref.ShapeReport, error) {
 	kf := ref.KeyFuncs{Decode: w.Cfg.UnmarshalKey, Marshal: w.Cfg.MarshalElem}
+	if w.Cfg.Cmp == "reversed" {
+		kf.Compare = func(a, b interface{}) (int, error) { return w.Cfg.RefCompare(a, b), nil }
+	}
 	rep, err := ref.ValidateShape(core.RootOf(sr.Root), w.Cfg.BF, w.Cfg.DecodeNode, w.Store.Peek, kf)
 	if err != nil {
 		return nil, err
